@@ -130,7 +130,7 @@ def resolve_hrefs(element, xmlids):
             continue # don't need to resolve this element
 
         elif e.get('href'):
-            resolved_element = xmlids[e.get('href').replace('#', '')]
+            resolved_element = xmlids.get(e.get('href').replace('#', ''))
             if resolved_element is None:
                 continue
             resolve_hrefs(resolved_element, xmlids)
